@@ -71,7 +71,7 @@ func genCase(t *rapid.T) Case {
 		How: rapid.SampledFrom([]string{"execprogram", "execute", "reused", "reused-after-restricted"}).Draw(t, "how"), Where: rapid.SampledFrom([]string{"begin", "rule", "function", "end"}).Draw(t, "where")}
 	n := rapid.IntRange(1, 8).Draw(t, "nsteps")
 	for i := 0; i < n; i++ {
-		c.Steps = append(c.Steps, Step{Kind: rapid.SampledFrom(stepKinds).Draw(t, "kind"), N: rapid.IntRange(0, 2).Draw(t, "n"), Style: rapid.IntRange(0, 4).Draw(t, "style")})
+		c.Steps = append(c.Steps, Step{Kind: rapid.SampledFrom(stepKinds).Draw(t, "kind"), N: rapid.IntRange(0, 2).Draw(t, "n"), Style: rapid.IntRange(0, 7).Draw(t, "style")})
 	}
 	if rapid.IntRange(0, 3).Draw(t, "final") == 0 {
 		c.Steps = append(c.Steps, Step{Kind: rapid.SampledFrom(finalKinds).Draw(t, "fkind")})
@@ -92,6 +92,13 @@ func nameExpr(base string, style int) string {
 		return fmt.Sprintf("(names[%s])", awk.QuoteStr(base)) // array element set up in BEGIN
 	case 3:
 		return fmt.Sprintf("(D \"/\" substr(%s, 2))", awk.QuoteStr("x"+base))
+	case 5:
+		// the same file reached through a path that starts like a device name
+		return fmt.Sprintf("(\"/dev/..\" D \"/%s\")", base)
+	case 6:
+		return fmt.Sprintf("(\"/dev/shm/../..\" D \"/./%s\")", base)
+	case 7:
+		return fmt.Sprintf("(D \"//%s\")", base)
 	default:
 		return fmt.Sprintf("(ENVIRON[\"SANDBOX\"] \"/%s\")", base)
 	}
@@ -109,7 +116,7 @@ func stmt(s Step, k int) string {
 	case "printf>":
 		return fmt.Sprintf("printf \"%%s\\n\", \"data%d\" > %s", k, nameExpr(w, s.Style))
 	case "print>reopen":
-		return fmt.Sprintf("close(%s); print \"again%d\" > %s", nameExpr(w, s.Style), k, nameExpr(w, (s.Style+1)%5))
+		return fmt.Sprintf("close(%s); print \"again%d\" > %s", nameExpr(w, s.Style), k, nameExpr(w, (s.Style+1)%8))
 	case "system":
 		return fmt.Sprintf("system(\"echo hi > \" %s)", nameExpr(sent, s.Style))
 	case "print|":
